@@ -182,7 +182,9 @@ Definition example_log2 : list event :=
   filter (fun e => match ev_digest e with Some _ => true | None => false end) example_log.
 
 Example C12_replay_example :
-  exists v es, replay toy_hash example_log 0 4 = Ok v /\ replay toy_hash example_log2 0 4 = Ok v /               from_parsed example_log2 = Ok es /\ tpm_replay toy_hash es 0 4 3 = Ok v /               length v = 20%nat.
+  exists v es, replay toy_hash example_log 0 4 = Ok v /\ replay toy_hash example_log2 0 4 = Ok v /\
+               from_parsed example_log2 = Ok es /\ tpm_replay toy_hash es 0 4 3 = Ok v /\
+               length v = 20%nat.
 Proof. eexists. eexists. repeat split; vm_compute; reflexivity. Qed.
 
 (** the hypothesis of [C12_noaction_never_contributes] relates different logs *)
